@@ -33,7 +33,8 @@ RULE = ("well-behaved prefix reaching a state class, then 3-30 lines each either
 REAL = ["aiomysensors.Gateway.listen", "MessageSchema", "all incoming handlers", "StreamTransport.read (stream kind)"]
 STUB = ["event loop (SimLoop)", "transport (SimTransport) / byte link (SimStreamTransport)"]
 ASSUMPTIONS = ["reference model is the oracle for the usability half"]
-REQUIRED_PROBES = ["absurd_battery", "absurd_heartbeat", "absurd_version", "short_line", "error_version_unknown",
+SHRINK_LISTS = ("ops", "lines", "chunks")
+REQUIRED_PROBES = ["stream_noise_line", "mqtt_binary_payload", "stream_error_then_good_line", "absurd_battery", "absurd_heartbeat", "absurd_version", "short_line", "error_version_unknown",
                    "error_then_good_line", "unknown_internal_type", "read_error", "merged_lines"]
 ASPECTS = ("outcome", "registry", "yield", "decode")
 
@@ -64,8 +65,37 @@ def good_line(rng, proto, nodes, children):
     return f"{n};{rng.choice(children)};2;0;2;\n"
 
 
+NOISE = [b"\xff\xfe", b"\x80", b"1;0;1;0;2;\xc3", b"\xf0\x9f", b"1;1;1;0;0;20.\xb0C", b"\x00\x01\x02", b"\xed\xa0\x80",
+         b"0;255;3;0;9;\xe9t\xe9", b"\xfe" * 40, b"", b"\r", b"1;2"]
+
+
+def gen_bytes(rng, i, kind):
+    proto = rng.choice(G.PROTOS)
+    lines = []
+    for _ in range(rng.randint(2, 12)):
+        r = rng.random()
+        base = good_line(rng, proto, [1, 2, 9], [0, 1, 7])
+        if r < 0.35:
+            lines.append([base.rstrip("\n").encode().hex(), "good"])
+        elif r < 0.65:
+            lines.append([rng.choice(NOISE).hex(), "noise"])
+        elif r < 0.8:
+            text, tag = G.absurd_payload(rng, proto, 1)
+            lines.append([text.rstrip("\n").encode().hex(), tag])
+        else:
+            text, tag = G.hostile(rng, base, None)
+            lines.append([text.rstrip("\n").replace("\n", " ").encode("utf-8", "replace").hex(), tag])
+    return {"kind": kind, "cfg": {"pin": proto if rng.random() < 0.6 else None, "transport": rng.choice(["tcp", "serial"]),
+                                  "end": rng.choice(["eof", "none", "reset", "none"])},
+            "lines": lines, "chunks": [rng.choice([1, 2, 3, 7, 20, 1000]) for _ in range(rng.randint(1, 30))]}
+
+
 def gen(seed: int, i: int, tier: str) -> dict:
     rng = random.Random(f"C03:{seed}:{i}")
+    if i % 5 == 3:
+        return gen_bytes(rng, i, "stream")
+    if i % 10 == 9:
+        return gen_bytes(rng, i, "mqtt")
     proto = rng.choice(G.PROTOS)
     cfg = {"pin": proto if rng.random() < 0.6 else None}
     nodes = rng.sample([1, 2, 9, 100, 254], rng.randint(1, 3))
@@ -101,6 +131,8 @@ def gen(seed: int, i: int, tier: str) -> dict:
 
 
 def run(scn):
+    if scn.get("kind") in ("stream", "mqtt"):
+        return run_bytes(scn)
     st = {"fault_then_good": False, "last_fault": False}
 
     def on_step(i, op, obs, disc, model, w, res):
@@ -151,4 +183,129 @@ def run(scn):
     res = execute(scn, PROP, ASPECTS, on_step=on_step, keep=keep)
     if st["fault_then_good"]:
         res.nontrivial_key = ("C03", scn["cfg"], scn["ops"])
+    return res
+
+
+# ---------------------------------------------------------------------------
+# byte-level sub-worlds: real TCP/serial StreamTransport and MQTT receive path under the real Gateway
+# ---------------------------------------------------------------------------
+def run_bytes(scn):
+    import asyncio
+    from collections import Counter
+
+    from vsim.core import EventLog, RunResult, Tapes
+    from vsim.gw import TimeShim, gc_paused
+    from vsim.loop import new_loop
+    from vsim.mqtt import SimBroker, make_client_class
+    from vsim.streams import SimPeer, install_network, make_open_serial_connection
+    import aiomysensors.model.protocol.protocol_14 as p14
+    import aiomysensors.transport.mqtt as mq
+    import aiomysensors.transport.serial as ser
+    from aiomysensors.exceptions import AIOMySensorsError
+    from aiomysensors.gateway import Gateway
+    from aiomysensors.transport.serial import SerialTransport
+    from aiomysensors.transport.tcp import TCPTransport
+
+    res = RunResult()
+    cfg = scn["cfg"]
+
+    class W:
+        pass
+
+    w = W()
+    old_ser, old_cli, old_time = ser.open_serial_connection, mq.AsyncioClient, p14.time
+    with gc_paused():
+        w.loop = new_loop()
+        w.tapes = Tapes({})
+        w.elog = EventLog()
+        w.faults = Counter()
+        w.log = lambda actor, kind, *a: w.elog.add(w.loop.time(), actor, kind, *a)
+        p14.time = TimeShim(lambda: 1_700_000_000 + int(w.loop.time()))
+        loop = w.loop
+        try:
+            lines = [(bytes.fromhex(h), tag) for h, tag in scn["lines"]]
+            if scn["kind"] == "stream":
+                peer = SimPeer(w)
+                install_network(w, peer)
+                ser.open_serial_connection = make_open_serial_connection(w, peer)
+                tr = TCPTransport("gw.sim") if cfg["transport"] == "tcp" else SerialTransport("/dev/ttySIM0")
+            else:
+                broker = SimBroker(w)
+                mq.AsyncioClient = make_client_class(broker)
+                tr = mq.MQTTClient("broker.sim")
+            gw = Gateway(tr)
+            if cfg["pin"]:
+                gw.protocol_version = cfg["pin"]
+            t = loop.create_task(tr.connect())
+            loop.run_until_idle(10)
+            if not t.done() or t.exception() is not None:
+                raise RuntimeError(f"connect failed in a fault-free setup: {t.exception() if t.done() else 'hang'}")
+            if scn["kind"] == "stream":
+                data = b"".join(b + b"\n" for b, _ in lines)
+                pos = 0
+                for size in scn["chunks"]:
+                    if pos >= len(data):
+                        break
+                    peer.send(data[pos:pos + size])
+                    pos += size
+                if pos < len(data):
+                    peer.send(data[pos:])
+                if cfg["end"] == "eof":
+                    peer.send_eof()
+            else:
+                for b, tag in lines:
+                    parts = b.split(b";")
+                    # the MQTT path carries the payload as bytes and the five fields in the topic
+                    topic = "mygateway1-out/" + "/".join(["1", "0", "1", "0", "2"])
+                    if len(parts) >= 6 and all(p.isdigit() and len(p) < 6 for p in parts[:5]) and 0 <= int(parts[2]) <= 4:
+                        topic = "mygateway1-out/" + "/".join(x.decode() for x in parts[:5])
+                        payload = b";".join(parts[5:])
+                    else:
+                        payload = b
+                    broker.inject(topic, payload)
+            last_err = False
+            gen_ = gw.listen()
+            for k, (b, tag) in enumerate(lines + ([(b"", "after-end")] if cfg["end"] != "none" and scn["kind"] == "stream" else [])):
+                if cfg["end"] == "reset" and scn["kind"] == "stream" and k == len(lines) // 2:
+                    peer.reset()
+                task = loop.create_task(gen_.__anext__())
+                loop.run_until_idle(5)
+                res.ops += 1
+                if tag == "noise":
+                    res.probes["stream_noise_line" if scn["kind"] == "stream" else "mqtt_binary_payload"] += 1
+                if not task.done():
+                    task.cancel()
+                    loop.run_until_idle(0)
+                    gen_ = gw.listen()
+                    if tag != "after-end" and cfg["end"] != "reset":
+                        res.violate(PROP, "returns-or-raises", f"hang:{scn['kind']}:{tag.split('+')[0].split('-')[0]}",
+                                    f"line #{k} {b[:60]!r} was delivered but listen never returned")
+                    continue
+                exc = task.exception() if not task.cancelled() else asyncio.CancelledError()
+                if exc is None:
+                    if last_err and tag == "good":
+                        res.probes["stream_error_then_good_line"] += 1
+                    last_err = False
+                    continue
+                last_err = True
+                gen_ = gw.listen()
+                if isinstance(exc, StopAsyncIteration):
+                    res.violate(PROP, "returns-or-raises", f"generator-ended:{scn['kind']}", f"line #{k} {b[:60]!r}")
+                elif not isinstance(exc, AIOMySensorsError):
+                    cls = "noise" if tag == "noise" else ("absurd" if tag.startswith("absurd") else "text")
+                    res.violate(PROP, "only-library-errors", f"{type(exc).__name__}:{scn['kind']}-{cls}",
+                                f"line #{k} {b[:80]!r} ({tag}): {exc!r}"[:400])
+            t2 = loop.create_task(gen_.aclose())
+            loop.run_until_idle(0)
+            t3 = loop.create_task(tr.disconnect())
+            loop.run_until_idle(10)
+        finally:
+            ser.open_serial_connection, mq.AsyncioClient, p14.time = old_ser, old_cli, old_time
+            res.digest = w.elog.digest()
+            res.vt = w.loop.time()
+            res.steps = w.loop.steps
+            res.faults.update(w.faults)
+            w.loop.shutdown()
+    if any(tag != "good" for _, tag in scn["lines"]):
+        res.nontrivial_key = "C03b:" + res.digest[:24]
     return res
